@@ -765,6 +765,7 @@ class Interp:
         self.unrefined_type_tests = set()
         self.summary_depth = 0
         self.unroll_depth = 0
+        self.unroll_index = []    # position in every enclosing unrolled loop / comprehension
         self.fn_attrs = {}
         self._rebinds = {}
         self.cached_results = {}
@@ -1557,7 +1558,7 @@ class Interp:
         if mode == 'exact' and len(elems) <= MAX_UNROLL:
             cur = [fr.store]
             breaks = []
-            for e in elems:
+            for ei_, e in enumerate(elems):
                 if not cur:
                     break
                 nxt = []
@@ -1566,11 +1567,13 @@ class Interp:
                     self.assign(fr, st.target, self.fresh_elem(fr, e, st), st)
                     self.unroll_depth += 1
                     fr.loop_depth += 1
+                    self.unroll_index.append(ei_)
                     try:
                         o = self.exec_block(fr, st.body, [s])
                     finally:
                         self.unroll_depth -= 1
                         fr.loop_depth -= 1
+                        self.unroll_index.pop()
                     out.ret.extend(o.ret)
                     out.exc.extend(o.exc)
                     breaks.extend(o.brk)
@@ -2642,6 +2645,10 @@ class Interp:
             a = atoms[0]
             if a[0] == 'seq':
                 return 'exact', list(a[2])
+            if a[0] == 'obj' and a[1] in self.classes and self.classes[a[1]].record == 'namedtuple':
+                vals_ = [self.load_attr_atom(fr, a, f_, node) for f_, _, _ in self.record_fields(self.classes[a[1]])]
+                if all(vals_):
+                    return 'exact', vals_
             if a[0] == 'c' and a[1] == 'str' and len(a[2]) <= 64:
                 return 'exact', [av(const(ch)) for ch in a[2]]
             if a[0] == 'kdict':
@@ -2705,6 +2712,11 @@ class Interp:
             elif a == TOP or a == EXT:
                 out = join(out, av(a))
             elif k == 'obj' and a[1] in self.classes:
+                ci_ = self.classes[a[1]]
+                if ci_.record == 'namedtuple':
+                    for f_, _, _ in self.record_fields(ci_):
+                        out = join(out, self.load_attr_atom(fr, a, f_, node))
+                    continue
                 raise self.err(node, 'iteration over an instance of {}'.format(a[1]))
             elif k == 'gen':
                 out = join(out, self.run_generator(fr, a, node))
@@ -3009,7 +3021,8 @@ class Interp:
             else:
                 r = [x for x in sa if x not in sb] + [x for x in sb if x not in sa]
             return {('seq', 'set', tuple(av(x) for x in r))}
-        if ka in ('set', 'seq', 'kdict', 'dict') and kb in ('set', 'seq', 'kdict', 'dict') and isinstance(op, (ast.BitOr, ast.BitAnd, ast.Sub, ast.BitXor)):
+        if ka in ('set', 'seq', 'kdict', 'dict', 'list') and kb in ('set', 'seq', 'kdict', 'dict', 'list') and isinstance(op, (ast.BitOr, ast.BitAnd, ast.BitXor)) \
+                or ka in ('set', 'seq', 'kdict', 'dict') and kb in ('set', 'seq', 'kdict', 'dict', 'list') and isinstance(op, ast.Sub):
             elem = BOT
             for x in (a, b):
                 m, es = self.iteration(fr, av(x), node)
@@ -3235,7 +3248,7 @@ class Interp:
                 else:
                     out = join(out, av(STR_S if a[1] == 'str' else BYTES))
             elif is_str_atom(a):
-                out = join(out, av(('str', str_taint(a), None)))
+                out = join(out, av(('str', str_taint(a), 'maybe-size' if (k == 'str' and a[2] == 'maybe-size') else None)))
             elif k in ('list', 'bytes', 'lines'):
                 out = join(out, av(a) if k != 'lines' else av(('list', av(('str', 'u', None)))))
             elif a == TOP or a == EXT:
@@ -3283,7 +3296,7 @@ class Interp:
             elif k == 'c' and a[1] == 'str':
                 out = join(out, av(STR_S))
             elif is_str_atom(a):
-                out = join(out, av(('str', str_taint(a), None)))
+                out = join(out, av(('str', str_taint(a), 'maybe-size' if (k == 'str' and a[2] == 'maybe-size') else None)))
             elif k == 'bytes' or (k == 'c' and a[1] == 'bytes'):
                 out = join(out, av(INT_S))
             elif a == TOP or a == EXT:
@@ -3345,10 +3358,12 @@ class Interp:
             else:
                 self.unroll_depth += 1
             fr.loop_depth += 1
-            for e in todo:
+            for ei_, e in enumerate(todo):
                 saved = fr.store
                 s = saved.copy()
                 fr.store = s
+                if not summary:
+                    self.unroll_index.append(ei_)
                 try:
                     self.assign(fr, gen.target, self.fresh_elem(fr, e, gen), gen)
                     ok = True
@@ -3369,8 +3384,11 @@ class Interp:
                         self.summary_depth -= 1
                     else:
                         self.unroll_depth -= 1
+                        self.unroll_index.pop()
                     fr.loop_depth -= 1
                     raise
+                if not summary:
+                    self.unroll_index.pop()
                 fr.store = saved
             fr.loop_depth -= 1
             if summary:
@@ -4765,7 +4783,8 @@ class Interp:
         if '@' not in oname and cname != self.line_class and any(self.has_behaviour(val) for _, val, _ in stores):
             # an object that holds classes / callables (exception types of a context manager, a builder ...): what it does
             # depends on where it was made, so its attributes are kept per construction site
-            oname = '{}@a{}:{}'.format(cname, getattr(node, 'lineno', 0), getattr(node, 'col_offset', 0))
+            oname = '{}@a{}:{}{}'.format(cname, getattr(node, 'lineno', 0), getattr(node, 'col_offset', 0),
+                                         ''.join('#%d' % i_ for i_ in self.unroll_index) if self.summary_depth == 0 else '')
             order = self.attr_order.setdefault(oname, [])
             for attr, val, snode in stores:
                 if attr not in order:
@@ -5142,6 +5161,7 @@ class Interp:
                     elems = y
                 if not elems:
                     return av(('list', BOT))
+                elems = self.fresh_elem(fr, elems, node)
                 if name == 'filter' and pos[0] == av(NONE):
                     return av(('list', erase_tags(frozenset(a for a in elems if a != NONE))))
                 r = self.call_value(fr, frozenset(a for a in pos[0] if a != NONE), Args([elems]), node)
@@ -5173,7 +5193,9 @@ class Interp:
             return av(TOP)
         if name in ('exec', '__import__'):
             raise self.err(node, '{}() is not modelled'.format(name))
-        if name in ('property', 'staticmethod', 'classmethod'):
+        if name == 'staticmethod' and x is not None:
+            return frozenset(('partial', a, (), ()) if a[0] in ('fn', 'clo', 'lam') else a for a in x)
+        if name in ('property', 'classmethod'):
             return x if x is not None else av(TOP)
         return av(TOP)
 
@@ -5341,7 +5363,7 @@ class Interp:
         if k == 'libobj':
             kind = a[1]
             if kind == 're.Pattern':
-                return self.call_lib(fr, 're.' + attr, Args([av(const('<pattern>'))] + list(pos), args.star, args.kw, args.kwstar), node), None
+                return self.call_lib(fr, 're.' + attr, Args([a[2] if len(a) > 2 else av(TOP)] + list(pos), args.star, args.kw, args.kwstar), node), None
             if kind == 'struct.Struct':
                 if attr in ('pack', 'pack_into', 'unpack', 'unpack_from', 'iter_unpack'):
                     return self.call_lib(fr, 'struct.' + attr, Args([a[2]] + list(pos), args.star, args.kw, args.kwstar), node), None
@@ -5771,7 +5793,7 @@ class Interp:
         if root == 're':
             fn = name.split('.', 1)[1]
             if fn == 'compile':
-                return av(('libobj', 're.Pattern'))
+                return av(('libobj', 're.Pattern', x if x is not None else av(TOP)))
             if fn in ('sub', 'subn'):
                 src = pos[2] if len(pos) > 2 else args.kw.get('string', av(STR_U))
                 repl = pos[1] if len(pos) > 1 else av(STR_S)
@@ -5799,7 +5821,17 @@ class Interp:
             if fn in ('match', 'search', 'fullmatch'):
                 return av(NONE, ('libobj', 're.Match'))
             if fn in ('findall',):
-                return av(('list', av(STR_U)))
+                src = pos[1] if len(pos) > 1 else args.kw.get('string', av(STR_U))
+                sz = frozenset()
+                for a in src:
+                    if a[0] == 'str' and isinstance(a[2], tuple) and a[2][0] == 'sizeint':
+                        sz = sz | a[2][1]
+                pat = pos[0] if pos else BOT
+                plain = pat and all(is_const(a) and a[1] == 'str' and '(' not in a[2] for a in pat)
+                if plain:
+                    # the matches of a pattern without groups are the pieces of the text themselves, in order
+                    return av(('toks', None, None, sz))
+                return av(('list', av(('str', 'u', 'maybe-size') if sz else STR_U)))
             if fn == 'finditer':
                 return av(('list', av(('libobj', 're.Match'))))
             if fn == 'escape':
